@@ -633,6 +633,10 @@ def install(R):
     def _atleast_2d(E, x):
         if isinstance(x, NdArr) and x.ndim == 2:
             return x
+        if isinstance(x, NdArr) and x.ndim == 1:
+            # a vector becomes ONE ROW (a view of the same memory)
+            from .npmodel import getitem as np_getitem
+            return np_getitem(E.registry, E, x, (None, slice(None, None, None)), None)
         from .values import NanReal
         if isinstance(x, NanReal):
             a = NdArr.fresh("a2d", (1, 1), "real", True)
